@@ -382,6 +382,132 @@ pub fn semantic_near_misses(rng: &mut Rng, p: &Position) -> Vec<(&'static str, P
     out
 }
 
+/// Systematic near-misses on the squares an acceptance condition looks at: for every castling right
+/// the home corner and the king's home square are given every possible content except the required
+/// one (including the ENEMY king standing on e1/e8), and for every e.p. file the victim square and
+/// the target square are given every possible content.  Built on small synthetic bases; the uniform
+/// oracle (accepted => playable) judges the outcome.
+pub fn critical_square_near_misses() -> Vec<(&'static str, Position)> {
+    let mut out = Vec::new();
+    let non_king = [Kind::P, Kind::N, Kind::B, Kind::R, Kind::Q];
+    for me in [Col::W, Col::B] {
+        let opp = me.flip();
+        let hr = me.home_rank();
+        let far = opp.home_rank();
+        for (side_idx, rf) in [(0usize, 7i32), (1, 0)] {
+            let idx = if me == Col::W { side_idx } else { 2 + side_idx };
+            for turn in [Col::W, Col::B] {
+                let mut base = Position::empty();
+                base.turn = turn;
+                base.board[sq(4, hr) as usize] = Some((me, Kind::K));
+                base.board[sq(rf, hr) as usize] = Some((me, Kind::R));
+                base.board[sq(if rf == 7 { 1 } else { 6 }, far) as usize] = Some((opp, Kind::K));
+                base.castle[idx] = true;
+                // (i) the corner holds anything but the own rook
+                for content in [None, Some(me), Some(opp)] {
+                    for k in non_king {
+                        let mut q = base.clone();
+                        q.board[sq(rf, hr) as usize] = content.map(|c| (c, k));
+                        if content == Some(me) && k == Kind::R {
+                            continue;
+                        }
+                        if (k == Kind::P) && content.is_some() {
+                            // pawns on a back rank are accepted by the parser; keep them, it is the
+                            // right that must be refused
+                        }
+                        out.push(("corner-content-with-right", q));
+                        if content.is_none() {
+                            break;
+                        }
+                    }
+                }
+                // (ii) the king's home square holds anything but the own king (own king elsewhere)
+                for king_to in [sq(3, (hr - 1).abs().min(6).max(1)), sq(2, if hr == 0 { 2 } else { 5 })] {
+                    for content in [None, Some(me), Some(opp)] {
+                        for k in [Kind::P, Kind::N, Kind::B, Kind::R, Kind::Q, Kind::K] {
+                            let mut q = base.clone();
+                            q.board[sq(4, hr) as usize] = None;
+                            q.board[king_to as usize] = Some((me, Kind::K));
+                            match (content, k) {
+                                (None, _) => {}
+                                (Some(c), Kind::K) => {
+                                    if c == me {
+                                        continue;
+                                    }
+                                    // the ENEMY king stands on the home square
+                                    for s in 0..64usize {
+                                        if q.board[s] == Some((opp, Kind::K)) {
+                                            q.board[s] = None;
+                                        }
+                                    }
+                                    q.board[sq(4, hr) as usize] = Some((opp, Kind::K));
+                                    // optionally shield it from the home rook
+                                    let mut q2 = q.clone();
+                                    let shield = sq(if rf == 7 { 6 } else { 1 }, hr);
+                                    q2.board[shield as usize] = Some((me, Kind::N));
+                                    out.push(("enemy-king-on-home-square-with-right", q2));
+                                }
+                                (Some(c), k) => q.board[sq(4, hr) as usize] = Some((c, k)),
+                            }
+                            out.push((if k == Kind::K && content == Some(opp) { "enemy-king-on-home-square-with-right" } else { "king-home-content-with-right" }, q));
+                            if content.is_none() {
+                                break;
+                            }
+                        }
+                    }
+                }
+            }
+        }
+    }
+    // e.p.: victim square and target square contents, every file, both sides to move
+    for turn in [Col::W, Col::B] {
+        let opp = turn.flip();
+        let land = opp.pawn_start_rank() + 2 * opp.fwd();
+        let target = land - opp.fwd();
+        for f in 0..8i32 {
+            let mut base = Position::empty();
+            base.turn = turn;
+            base.ep = Some(f as u8);
+            // kings far from the action, on different files/ranks from the e.p. squares
+            let kf = if f < 4 { 7 } else { 0 };
+            base.board[sq(kf, turn.home_rank()) as usize] = Some((turn, Kind::K));
+            base.board[sq(kf, opp.home_rank()) as usize] = Some((opp, Kind::K));
+            base.board[sq(f, land) as usize] = Some((opp, Kind::P));
+            for content in [None, Some(turn), Some(opp)] {
+                for k in non_king {
+                    // victim square
+                    let mut q = base.clone();
+                    q.board[sq(f, land) as usize] = content.map(|c| (c, k));
+                    if !(content == Some(opp) && k == Kind::P) {
+                        out.push(("ep-victim-square-content", q));
+                    }
+                    // target square (victim pawn in place)
+                    if let Some(c) = content {
+                        let mut q = base.clone();
+                        q.board[sq(f, target) as usize] = Some((c, k));
+                        out.push(("ep-target-square-content", q));
+                    }
+                    if content.is_none() {
+                        break;
+                    }
+                }
+            }
+            // a king on the target square
+            for c in [turn, opp] {
+                let mut q = base.clone();
+                for s in 0..64usize {
+                    if q.board[s] == Some((c, Kind::K)) {
+                        q.board[s] = None;
+                    }
+                }
+                q.board[sq(f, target) as usize] = Some((c, Kind::K));
+                out.push(("ep-target-square-content", q));
+            }
+        }
+    }
+    out
+}
+
 /// e.p. field text corruptions: every square name and some garbage in the e.p. field.
 pub fn ep_text_variants(rng: &mut Rng, p: &Position) -> Vec<String> {
     let fen = p.to_fen();
@@ -541,6 +667,19 @@ pub fn random_bytes_stratum(c: &mut Collector, rng: &mut Rng, n: u64) {
             (0..len).map(|_| *rng.pick(ALPHABET)).collect()
         };
         judge_bytes(c, &v, "random-bytes");
+    }
+    // systematic critical-square near-misses
+    for (kind, q) in critical_square_near_misses() {
+        let bad = q.c06_ok().is_err();
+        let before_acc = c.counters.get("accepted").copied().unwrap_or(0);
+        judge_bytes(c, q.to_fen().as_bytes(), kind);
+        let accepted = c.counters.get("accepted").copied().unwrap_or(0) > before_acc;
+        c.tag(&format!("critical-square:{kind}:{}", match (bad, accepted) {
+            (true, false) => "unplayable-rejected",
+            (true, true) => "UNPLAYABLE-ACCEPTED",
+            (false, true) => "playable-accepted",
+            (false, false) => "playable-rejected",
+        }));
     }
     // a handful of fixed edge inputs
     for s in [
